@@ -255,6 +255,23 @@ def main():
         ok_gen = ok_build and regenerate(log)
         targets = [f"KmipModel.Props.{prop}", "kmip-model"]
         ok_lean, lean_out = (False, "")
+        if ok_gen and cfg.get("certs"):
+            # reachable-set certificates are printed by the (untrusted) driver and re-checked by the kernel
+            ok_m, lean_out = lake_build(["kmip-model"], log)
+            if ok_m:
+                for name, fname in cfg["certs"]:
+                    rc, out = sh([MODEL], cwd=LEAN, timeout=1800) if False else (0, "")
+                    pr = subprocess.run([MODEL], input=f"lts.cert {name}\n", cwd=LEAN, stdout=subprocess.PIPE, stderr=subprocess.STDOUT, text=True, timeout=1800)
+                    path = os.path.join(LEAN, "KmipModel", "Gen", fname)
+                    old_txt = open(path).read() if os.path.exists(path) else None
+                    if pr.returncode == 0 and pr.stdout.strip() and "namespace" in pr.stdout:
+                        if pr.stdout != old_txt:
+                            with open(path, "w") as f:
+                                f.write(pr.stdout)
+                        log.append(f"$ lts.cert {name} -> {fname} ({len(pr.stdout)} bytes, {'rewritten' if pr.stdout != old_txt else 'unchanged'})")
+                    else:
+                        log.append(f"$ lts.cert {name} FAILED rc={pr.returncode}: {pr.stdout[-300:]}")
+                        ok_gen = False
         if ok_gen:
             ok_lean, lean_out = lake_build(targets, log)
         # run the engines against a private copy of the driver (a concurrent relink must not disturb them)
